@@ -197,6 +197,24 @@ func observe(u *setUnderTest, m model, queries *int64) string {
 			return fmt.Sprintf("Equal(set %v)=true but model is %v", d.sorted(), want)
 		}
 	}
+	// sets of the same size that differ in exactly one member (every member replaced by every non-member)
+	for v := 1; v <= universe; v++ {
+		if !m[v] {
+			continue
+		}
+		for x := 0; x <= universe+1; x++ {
+			if m[x] {
+				continue
+			}
+			d := m.clone()
+			delete(d, v)
+			d[x] = true
+			*queries += 2
+			if o := newSet(u.k, d.sorted()...); u.equal(o) || o.equal(u) {
+				return fmt.Sprintf("Equal between %v and %v (same size, one member differs) = true", want, d.sorted())
+			}
+		}
+	}
 	if u.equal(nil) {
 		return "Equal(nil)=true for a non-nil set"
 	}
@@ -332,6 +350,36 @@ func observeBig(u *setUnderTest, m model, rng *rand.Rand, n int, full bool, q *i
 	}
 	if !u.equal(newSet(u.k, want...)) {
 		return "Equal(a fresh set of the same values) = false"
+	}
+	// same size, one member replaced by a non-member that keeps its rank (first, last, both medians, random ranks),
+	// or by any non-member
+	if len(want) > 0 {
+		for _, i := range []int{0, len(want) - 1, len(want) / 2, (len(want) - 1) / 2, rng.IntN(len(want)), rng.IntN(len(want))} {
+			lo, hi := -1, n+2
+			if i > 0 {
+				lo = want[i-1]
+			}
+			if i+1 < len(want) {
+				hi = want[i+1]
+			}
+			cands := []int{rng.IntN(n+2) - 0}
+			for x := lo + 1; x < hi && len(cands) < 4; x++ {
+				if x != want[i] {
+					cands = append(cands, x)
+				}
+			}
+			for _, x := range cands {
+				if m[x] {
+					continue
+				}
+				other := slices.Clone(want)
+				other[i] = x
+				*q += 2
+				if o := newSet(u.k, other...); u.equal(o) || o.equal(u) {
+					return fmt.Sprintf("Equal with a set of the same size in which member %d (rank %d of %d) is replaced by %d = true", want[i], i, len(want), x)
+				}
+			}
+		}
 	}
 	return ""
 }
@@ -878,7 +926,7 @@ func TestRing(t *testing.T) {
 	// large capacities
 	{
 		var cases []ringBig
-		for _, capN := range []int{7, 8, 9, 15, 16, 17, 31, 32, 33, 63, 64, 65, 100, 255, 256, 257, 1000, 1024, 4096} {
+		for _, capN := range []int{7, 8, 9, 15, 16, 17, 31, 32, 33, 63, 64, 65, 100, 255, 256, 257, 1000, 1024, 4096, 4097, 8192, 65537} {
 			for i := 0; i < r.Pick(30, 1000); i++ {
 				cases = append(cases, ringBig{Cap: capN, Steps: 16, Seed: r.Seed*7919 + uint64(len(cases))})
 			}
